@@ -271,7 +271,9 @@ impl Case {
         Case { family: v["family"].as_str().unwrap_or("").into(), a: g("a"), b: g("b"), last: g("last"), style: g("style") as u8, cov: g("cov") as u8, filler: g("filler") as u8, direct: g("direct") as u8 }
     }
     fn class(&self) -> String {
-        if self.family.ends_with("threshold") {
+        if self.family == "mark_base_shared" {
+            format!("mark2base shared-anchor pattern={} cov={} filler={}", ["all-distinct", "one-anchor-per-base", "pairwise-shared", "shared-device"][self.style as usize % 4], self.cov, self.filler)
+        } else if self.family.ends_with("threshold") {
             format!("{} style={} cov={} filler={} {}", self.family, self.style, self.cov, self.filler, if self.direct == 1 { "direct" } else { "builder" })
         } else {
             self.family.clone()
@@ -582,6 +584,48 @@ fn build_case(c: &Case) -> (w::PositionLookup, Expect) {
             let subs = b.build(&mut vs);
             (w::PositionLookup::Pair(wl::Lookup::new(wl::LookupFlag::empty(), subs)), Expect::Pair(m))
         }
+        // k marks (one class each) x m bases whose base anchors are SHARED between mark classes (the
+        // compiler de-duplicates identical Anchor / Device tables, so one object is referenced from
+        // classes that land on different sides of a split point). style = share pattern:
+        // 0 all distinct, 1 one anchor per base for all classes, 2 classes share pairwise (2t, 2t+1),
+        // 3 distinct anchors whose x Device table is shared per base
+        "mark_base_shared" => {
+            let (k, mm) = (c.a as u32, c.b as u32);
+            let mut b = MarkToBaseBuilder::default();
+            let mut marks = HashMap::new();
+            let mut bases: HashMap<u16, HashMap<String, RAnchor>> = HashMap::new();
+            for i in 0..k {
+                let name = format!("c{i}");
+                let (x, y) = (i as i16 + 1, -(i as i16) - 1);
+                let _ = b.insert_mark(gid(first_glyph(c.cov, i)), &name, AnchorBuilder::new(x, y));
+                marks.insert(first_glyph(c.cov, i), (name, RAnchor { x, y, point: None, xdev: None, ydev: None }));
+            }
+            for j in 0..mm {
+                for i in 0..k {
+                    let n = j * k + i;
+                    if n % 17 == 16 {
+                        continue;
+                    }
+                    let (x, y) = match c.style {
+                        1 => (100 + j as i16, -(j as i16)),
+                        2 => (100 + j as i16, (i / 2) as i16),
+                        _ => ((n % 30011) as i16, j as i16),
+                    };
+                    let mut e = RAnchor { x, y, point: None, xdev: None, ydev: None };
+                    let mut ab = AnchorBuilder::new(x, y);
+                    if c.style == 3 {
+                        let (st, dv) = device_vals(j, 0);
+                        ab = ab.with_x_device(wl::Device::new(st, st + 2, &dv));
+                        e.xdev = Some(RDev::expected(st, &dv));
+                    }
+                    let name = format!("c{i}");
+                    b.insert_base(gid(second_glyph(j)), &name, ab);
+                    bases.entry(second_glyph(j)).or_default().insert(name, e);
+                }
+            }
+            let subs = b.build(&mut vs);
+            (w::PositionLookup::MarkToBase(wl::Lookup::new(wl::LookupFlag::empty(), subs)), Expect::MarkBase { marks, bases })
+        }
         // k marks (one class each) x m bases, every 17th base anchor missing
         _ => {
             let (k, mm) = (c.a as u32, c.b as u32);
@@ -640,6 +684,11 @@ fn direct_values(style: u8, i: u32, j: u32) -> ((RVal, RVal), (w::ValueRecord, w
     ((e1, e2), (w1, w2))
 }
 
+/// families that sweep sizes across the 64 KiB split boundaries
+fn is_sweep(c: &Case) -> bool {
+    c.family.ends_with("threshold") || c.family == "mark_base_shared"
+}
+
 pub struct Outcome {
     pub refused: bool,
     pub subtables: usize,
@@ -683,6 +732,11 @@ fn check_impl(c: &Case, count_only: bool) -> Result<Outcome, (String, String)> {
     };
     let bytes = match bytes {
         Ok(b) => b,
+        Err(write_fonts::error::Error::PackingFailed(_)) if c.family == "mark_base_shared" => {
+            // the statement covers mark-to-base data "of any size": valid input of this family must
+            // compile (the unmodified compiler does compile it); a refusal yields nothing at all
+            return e("compile failed on valid input", "dump_table returned PackingFailed".to_string());
+        }
         Err(write_fonts::error::Error::PackingFailed(_)) => {
             return Ok(Outcome { refused: true, subtables: 0, formats: vec![], extension: false, pairs: 0, len: 0, cov_formats: vec![], cov_ranges_max: 0, device_decode_note: None })
         }
@@ -799,11 +853,11 @@ pub fn run_case(run: &Run, c: &Case, l: &mut Local) -> Option<Outcome> {
             l.all.insert(h.finish());
             let mut fs = o.formats.clone();
             fs.dedup();
-            let nontrivial = o.extension || (c.family.ends_with("threshold") && o.subtables > 1) || fs.len() > 1 || (!c.family.ends_with("threshold") && o.subtables >= 1);
+            let nontrivial = o.extension || (is_sweep(c) && o.subtables > 1) || fs.len() > 1 || (!is_sweep(c) && o.subtables >= 1);
             if nontrivial {
                 l.nontrivial.insert(h.finish());
             }
-            if c.family.ends_with("threshold") {
+            if is_sweep(c) {
                 if o.subtables > 1 {
                     *l.c.entry("threshold_cases_split").or_insert(0) += 1;
                     if o.cov_formats.iter().any(|f| *f == 2) {
@@ -822,7 +876,12 @@ pub fn run_case(run: &Run, c: &Case, l: &mut Local) -> Option<Outcome> {
             Some(o)
         }
         Err((class, detail)) => {
-            run.violation(&format!("{}: {class}", c.class()), &format!("{c:?}: {detail}"), c.to_json());
+            let identity = if c.family == "mark_base_shared" {
+                format!("mark2base shared-anchor: {class} ({})", c.class().trim_start_matches("mark2base shared-anchor "))
+            } else {
+                format!("{}: {class}", c.class())
+            };
+            run.violation(&identity, &format!("{c:?}: {detail}"), c.to_json());
             None
         }
     }
@@ -1045,9 +1104,42 @@ pub fn part_c(run: &Run) {
     }
     let outs = run_cases(run, &cases, "MarkBasePos threshold sweeps (k single-mark classes x 200 bases, k swept one class at a time across the 1|2, 2|3, 3|4 sub-table boundaries)");
     report_split_histogram(run, "mark_base", &cases, &outs);
+
+    // ---- MarkBasePos with anchors shared across mark classes (and hence across split points).
+    // 500 bases: the shared anchors (3 KB+) must outweigh the slack left in a full sub-table, or an
+    // under-estimate of a later sub-table would not overflow any offset
+    let mut cases = vec![];
+    let radius = if quick { 3 } else { 10 };
+    let mut combos = vec![];
+    for pattern in 0..4u8 {
+        for target in 2..=(if quick { 3usize } else { 4 }) {
+            combos.push((pattern, target));
+        }
+    }
+    let kts: Vec<u64> = combos
+        .par_iter()
+        .map(|(pattern, target)| {
+            let style = *pattern;
+            let probe = move |k: u64| Case { family: "mark_base_shared".into(), a: k, b: 500, last: 0, style, cov: 0, filler: 0, direct: 0 };
+            first_k_with(&probe, *target, 4, 1200)
+        })
+        .collect();
+    for ((pattern, target), kt) in combos.iter().copied().zip(kts.iter().copied()) {
+        for filler in [0u8, 2] {
+            if filler == 2 && (target > 2 || quick && pattern != 1) {
+                continue;
+            }
+            for k in kt.saturating_sub(radius).max(1)..=kt + radius {
+                cases.push(Case { family: "mark_base_shared".into(), a: k, b: 500, last: 0, style: pattern, cov: 0, filler, direct: 0 });
+            }
+        }
+    }
+    let outs = run_cases(run, &cases, "MarkBasePos with shared anchors (k single-mark classes x 500 bases; share pattern {all distinct, one anchor per base, pairwise, shared Device}; k swept one class at a time across the sub-table boundaries; a compile failure is a violation)");
+    report_split_histogram(run, "mark_base_shared", &cases, &outs);
     run.bound("threshold_families", json!({
         "pair1": "k first glyphs x 100 seconds, value styles {xAdv, xAdv+yPla|xPla, xAdv+Device, xAdv+VariationIndex(direct), xAdv+Device|xPla+Device}, coverage styles {contiguous, alternate, runs}, last pair set swept (quick: crossing +-3 records; thorough: 0..=100), k at 1x/2x/3x 64 KiB, with 0 or 2 filler lookups",
         "pair2": "k x 51 singleton classes, k within +-3 (quick) / +-12 (thorough) of the first k giving 2, 3, 4 sub-tables; 5 value styles incl. two where both value records of every Class2Record have their own distinct Device / VariationIndex tables (one by direct construction); 0 or 2 filler lookups",
+        "mark_base_shared": "k single-mark classes x 500 bases (so that the shared anchor bytes exceed the slack of a sub-table), base anchors shared across mark classes: patterns {all distinct, one anchor per base, pairwise shared, shared Device}; k within +-3 (quick) / +-10 (thorough) of the first k giving 2, 3 (thorough 4) sub-tables; PackingFailed is a violation",
         "mark_base": "k single-mark classes x 200 bases, k within +-3 (quick) / +-10 (thorough) of the first k giving 2, 3, 4 sub-tables; 3 anchor styles; 0 or 2 filler lookups",
     }));
 }
